@@ -69,6 +69,7 @@ def _w_get_document(*a, **k):
     if not OBS["load"]:
         OBS["in_ok"] = _in_ok(r)
         OBS["is_dict"] = isinstance(r, dict)
+        OBS["data"] = r
     else:
         OBS["load_err"] = r
     return r
@@ -291,6 +292,16 @@ def run_gen(case, want_obs=True):
         res["before"], res["after_n"] = before, (None if after is None else len(after))
         res["unchanged"] = (before == after)
         res["exc"] = site_of(exc) + [str(exc)[:200]] if exc is not None else None
+        if exc is not None and OBS["load"] is False and OBS["validation"] is None:
+            # from_dict did not return: decide independently of the crash whether the document fails validation
+            from pydantic import ValidationError
+            try:
+                oai.OpenAPI.model_validate(OBS.get("data"))
+                res["val_fail"] = False
+            except ValidationError:
+                res["val_fail"] = True
+            except BaseException:  # noqa
+                res["val_fail"] = None
         ids = {}
 
         def num(e):
